@@ -525,8 +525,8 @@ def calendar_rows(chk, years, timeout):
     for m in ROW.finditer(res["output"]):
         xs = [int(x) for x in INT.findall(m.group(1))]
         yo, mo, dim = xs[0:3]
-        pats = [xs[i:i + 8] for i in range(3, len(xs), 8)]
-        if (len(xs) - 3) % 8:
+        pats = [xs[i:i + 9] for i in range(3, len(xs), 9)]
+        if (len(xs) - 3) % 9:
             tlc.machinery_failure("cannot parse calendar row %r" % m.group(1)[:200])
         rows.append((yo, mo, dim, pats))
     if res["finished"] and len(rows) != 12 * len(years):
@@ -545,7 +545,7 @@ def check_calendar(chk, rep, years, timeout):
         days4 = [date4([yo, mo, d]) for d in range(1, dim + 1)]
         ndates += dim
         for p in pats:
-            kind, q, mask = p[0], p[1:7], p[7]
+            kind, q, mask, mask_dev = p[0], p[1:7], p[7], p[8]
             if kind == 1 and q[0:3] == [ANY, ANY, ANY] and q[3] != ANY:
                 # cross-check of the specification's own DayOfWeek against an unrelated implementation
                 py = sum(1 << (d - 1) for d in range(1, dim + 1) if datetime.date(1900 + yo, mo, d).isoweekday() == q[3])
@@ -558,7 +558,9 @@ def check_calendar(chk, rep, years, timeout):
             if got != mask:
                 diff = [d for d in range(1, dim + 1) if got == -1 or ((got ^ mask) >> (d - 1)) & 1]
                 nparam = {1: 4, 2: 6, 3: 3, 4: 4, 5: 6, 6: 3}[kind]
-                rep.violation("MatcherExact", {"matcher": MATCHER[kind], "case": pat_class(kind, q)},
+                # labelled as the known finding only if the result is exactly what the spec's named deviation yields
+                label = "wildcard_start_date" if (got == mask_dev and mask_dev != mask) else "mismatch"
+                rep.violation("MatcherExact", {"matcher": MATCHER[kind], "pattern": pat_class(kind, q), "case": label},
                               {"year": 1900 + yo, "month": mo, "pattern": q[:nparam], "days_that_differ": diff[:8],
                                "first": {"date": [1900 + yo, mo, diff[0]], "expected_match": bool((mask >> (diff[0] - 1)) & 1),
                                          "got": "raised" if got == -1 else bool((got >> (diff[0] - 1)) & 1)}},
@@ -761,7 +763,8 @@ def main(tier, seed):
             chk.case(("T-scan", ci), nontrivial=True, n=len(P) * len(days))
         finally:
             b.close()
-        t0 = [shift(F, -rng.choice([1, 1, 2])), rng.randrange(86400) * 100 + (50 if rng.random() < 0.1 else 0)]
+        # (a sub-second creation instant only for dates after 1970: Time.now() of a negative fractional clock is another story)
+        t0 = [shift(F, -rng.choice([1, 1, 2])), rng.randrange(86400) * 100 + (50 if rng.random() < 0.1 and F[0] > 70 else 0)]
         end = [shift(F, rng.randint(2, 6)), 0]
         st = add_run(recs, ids, cfg, t0, end, dtype, "random")
         status_count[st] += 1
@@ -805,7 +808,8 @@ def replay(path):
                     got = impl_mask(p[0], p[1:7], days4)
                     print("pattern %r in %d-%02d: spec day mask %s, implementation %s" % (p[:7], 1900 + yo, mo, bin(p[7]), bin(got) if got >= 0 else "raised"))
                     if got != p[7]:
-                        rep.violation("MatcherExact", {"matcher": MATCHER[p[0]], "case": pat_class(p[0], p[1:7])},
+                        label = "wildcard_start_date" if (got == p[8] and p[8] != p[7]) else "mismatch"
+                        rep.violation("MatcherExact", {"matcher": MATCHER[p[0]], "pattern": pat_class(p[0], p[1:7]), "case": label},
                                       {"year": 1900 + yo, "month": mo, "pattern": p[1:7]}, rp)
     elif rp["kind"] == "scan":
         b = Built(rp["cfg"], rp.get("dtype", "Real"))
